@@ -34,4 +34,34 @@ example : captureTimestamp 1553711970008675309 = 0xe04641e202388b88 ∧
     instantOk (2085978495999999999 : Int64).toInt = true ∧ instantOk (2085978496000000000 : Int64).toInt = false := by
   decide
 
+/-- every send instant of the era and every delay in [0, 64 s − 2^-18 s): `Estimate(send + delay)` applied to
+    the 24-bit abs-send-time of the send instant is the send instant rounded down to the field's grid —
+    at most 3815 ns (⌈2^-18 s⌉) early, never late — whether or not the field wrapped in between, and
+    also when the receive instant lies beyond the end of the NTP era -/
+theorem c18_estimate_spec (send delay : Int64) (h : estimateWF send delay = true) :
+    0 ≤ send.toInt - (estimateNs (sendTimestamp send &&& 0xFFFFFF) (send + delay)).toInt ∧
+    send.toInt - (estimateNs (sendTimestamp send &&& 0xFFFFFF) (send + delay)).toInt ≤ 3815 :=
+  estimate_ok send delay h
+
+/-- the predicate the driver evaluates on the real code holds of the model, for every pair of `int64`s -/
+theorem c18_estimate (send delay : Int64) :
+    estimateOk send delay
+      ⟨sendTimestamp send &&& 0xFFFFFF, estimateNs (sendTimestamp send &&& 0xFFFFFF) (send + delay)⟩ = true := by
+  by_cases h : estimateWF send delay = true
+  · have := estimate_ok send delay h
+    simp only [estimateOk, Pred.C18.estimate, h, Bool.not_true, Bool.false_or, Bool.and_eq_true, decide_eq_true_eq]
+    omega
+  · simp [estimateOk, h]
+
+/-- non-vacuity: the two cases of TestAbsSendTimeExtension_Estimate ("not carried", "carried during
+    transmission": send 63.99… s into a period, receive 1 s later) as Unix nanoseconds, the largest
+    admissible delay, and the first inadmissible one -/
+example : estimateWF 488365200000000000 3000000 = true ∧
+    estimateNs (sendTimestamp 488365200000000000 &&& 0xFFFFFF) (488365200000000000 + 3000000) = 488365200000000000 ∧
+    estimateWF 488365246999999999 1000000001 = true ∧
+    estimateNs (sendTimestamp 488365246999999999 &&& 0xFFFFFF) (488365246999999999 + 1000000001)
+      = 488365246999996185 ∧
+    estimateWF 0 63999996185 = true ∧ estimateWF 0 63999996186 = false := by
+  decide
+
 end Rtp.Props.C18
